@@ -17,6 +17,14 @@ CHECKS = {
                 technique="explicit-state enumeration of the real generated set classes: complete value space for 8/16-bit sets x every index x {get,set0,set1} x {named, by-tag, visit}; structured value alphabet for 32/64-bit",
                 text="8- and 16-bit sets: every underlying value x every choice index x every operation is executed on the generated accessors (complete state space). 32/64-bit: walking-bit/complement/boundary patterns x every index. Oracle: Python-style integer bit arithmetic in the harness. Constant evaluation: static_assert table in C++14+ cells.",
                 note="Trusted: compilers, harness. 32/64-bit value spaces are covered by a structured subset only (stated in evidence)."),
+    "C12": dict(category="model_checking", design_ref="DESIGN.md 5 / C12",
+                technique="explicit-state exploration of the real group iterators: state = iterator index, all iterator-op sequences up to depth 3 from begin() and end(), integer index model; all 16 dimension type pairs",
+                text="For each of the 16 (numInGroup, blockLength) type pairs x group sizes 0..3 x wire block lengths {0,1,2,5}: every in-domain sequence of iterator operations up to the depth bound is executed on the generated group views; after every step the entry address, it[k], (it+k)-k, distances and all six orderings against an iterator at every index are compared with index arithmetic. Nested groups: all inner-count vectors over {0,1,2}^n. resize/clear are checked to change only numInGroup.",
+                note="Trusted: compilers, harness. Scope: sizes <= 3, so difference_type range issues of small numInGroup types are not exercised."),
+    "C16": dict(category="exploration", design_ref="DESIGN.md 5 / C16",
+                technique="bounded-exhaustive enumeration: 11 primitives x {built-in, generated implicit, generated explicit} x all ordered pairs of a boundary value set x all predicates/operators, executed on the real types against the documented rules",
+                text="Every ordered pair of boundary values (incl. null, NaN variants, infinities, extremes) for every primitive and type kind is run through has_value/bool/value_or/in_range and all comparison operators (operator<=> cells and pre-C++20 cells are different code) and compared with a reference function; static min/max/null are compared with the SBE table typed in independently. No history, hence exploration.",
+                note="Trusted: compilers, the reference function (documented rules), the typed-in SBE default table."),
 }
 
 NOT_YET = "not built yet in this round (planned, see DESIGN.md section 5)"
